@@ -169,7 +169,7 @@ func checkRegistry(w *rig.World) (string, string) {
 	}
 	// every live announced session is reachable
 	live := 0
-	for _, sid := range append([]string(nil), w.SockOrder...) {
+	for _, sid := range w.SocketIDs() {
 		s := w.SocketByID(sid)
 		if s.ReadyState() != "closed" {
 			live++
